@@ -1,10 +1,11 @@
 """C08 - flow calls bind parameters, defaults and return values; locals are private.
 
-Domain : signatures of 0-4 parameters, a generated subset of them with defaults (a suffix, or any placement - also a parameter
+Domain : signatures of 0-4 parameters (one in four: 5-14 parameters with up to 14 positional arguments), a generated subset of them with defaults (a suffix, or any placement - also a parameter
          with a default BEFORE one without, which the grammar accepts), optionally declaring 1-2 return members
          (`flow f $p0 -> $m0, $m1 = 5`) that the body may assign; the callee ends with `return <expression>`, a bare `return`,
          `return None` or without a return statement; calls with k positional + a named subset
-         of the rest, simple (`f 1 $b=2`) and classic (`f(1, b=2)`) syntax, via `$x = await f`, `await f`,
+         of the rest, simple (`f 1 $b=2`, also with named arguments written among / before the positional ones: `f $b=2 1`) and
+         classic (`f(1, b=2)`) syntax, via `$x = await f`, `await f`,
          `start f as $r` + `match $r.Finished()`; values = scalars/None/bools/strings/lists/dicts as literals or passed
          through an event payload; callee echoes its parameters, reassigns parameters and a local that also exists in
          the caller, returns an expression of them; two sibling instances interleaved by events.
@@ -27,13 +28,16 @@ PID = "C08"
 LEVEL = "exploration"
 CASE_TIMEOUT = 30
 RULE = (
-    "signature: 0-4 params p0..p3, a generated subset has literal defaults: in half of the cases a suffix, in the other half ANY placement "
+    "signature: 0-4 params p0..p3 (3 of 4 cases) or a WIDE one of 5-14 params p0..p13 (1 of 4; in 2 of 3 of these all but 0-3 parameters are given by "
+    "position; arguments mostly scalars; labels params5-9 / params10-14, positional5-10 / positional11+ = more than ten positional arguments), a generated subset has literal defaults: in half of the cases a suffix, in the other half ANY placement "
     "(`flow f $p0=10 $p1`: a parameter with a default before one without - accepted by the grammar; positional argument i binds to the "
     "i-th DECLARED parameter; labels default-before-nondefault / positional-into-default-before-nondefault); in 3 of 5 cases the signature "
     "also declares 1-2 return members (`-> $m0, $m1 = 5`), each with or without a literal default and assigned or not in the body (values "
     "mostly not None; labels return-membersN, member-holds-value-at-end, returns-none-while-member-holds-value, returns-other-value-than-member); "
     "call: k<=n positional values then a subset of the "
-    "remaining params by name; syntax simple|classic; form assign-await|await|start-ref|activate; values drawn from None/bool/int/float/"
+    "remaining params by name; syntax simple|classic; WRITTEN order of a bracket-less (simple) call with positional and named arguments: in 2 of 3 of these "
+    "cases every named argument is put at a drawn place among the positional ones (`f $p2=9 1`, `f 1 $p3=0 2 $p2=5`: the grammar rule simple_arguments "
+    "puts no order on them; the i-th POSITIONAL argument belongs to the i-th parameter; label named-written-before-positional; also in second activations); form assign-await|await|start-ref|activate; values drawn from None/bool/int/float/"
     "str (quotes, newlines, $, braces)/list/dict (depth<=2), as literals or via the payload of a received event; callee: send "
     "Echo(all params), (when the flow is called twice) append in place to list parameters that received their default, reassign some params and the local $loc (also set in the caller), return literal | param | list of params "
     "| dict of params (params incl. the return members the body assigned) | bare `return` | `return None` (both more often when return members are declared) "
@@ -50,9 +54,12 @@ RULE = (
     "rest), distinct values, `$x = await`; (b) returns (104 cases): 7 return-member declarations (none / one / two, with / without default, assigned or not) x "
     "2 signatures x return of nothing / None / 0 / False / '' / [] / a value / the member; (c) activation (464 cases): 3 signatures x every provision "
     "(positional/named/omitted per parameter) of the first activation x (none | every provision of a second one, same values) x restarts, the body "
-    "reassigning the first and wrapping the last parameter. "
+    "reassigning the first and wrapping the last parameter; (d) written order (84 cases): bracket-less calls of signatures with 2-4 params (defaults on the last / on all) x every "
+    "provision with >=1 positional and >=1 named argument x every placement of the named arguments that writes one of them before a positional one, call forms "
+    "in turn; (e) wide signatures (80 cases): 5, 8, 10-14 params (every third with a default) x every number 0..n of positional arguments, every second remaining "
+    "parameter by name, distinct values, syntax and call form in turn. "
     "Non-trivial = the call mixes >=2 of {positional, named, defaulted} or passes a container/None/bool, or passes positional arguments to a signature "
-    "with a default before a non-default, or returns None while a declared return member holds a value, or two activations with different "
+    "with a default before a non-default, or more than four positional arguments, or a named argument written before a positional one, or returns None while a declared return member holds a value, or two activations with different "
     "bindings, or a restart after a parameter was reassigned; distinct by case."
 )
 ASSUMPTIONS = [
@@ -61,6 +68,10 @@ ASSUMPTIONS = [
     "defaults are literals (evaluated without access to caller variables)",
     "a parameter with a default may precede one without (flow_params_def_simple/_classic put no order on flow_param_def; such a signature parses and runs); "
     "'corresponding positional argument' is read as: the i-th positional argument belongs to the i-th declared parameter",
+    "a bracket-less call may write a named argument before a positional one (grammar: `simple_arguments: simple_argvalue+`, simple_argvalue = expr | var_name '=' expr, "
+    "no order; the transformer numbers the positional arguments with a counter of their own; only the classic syntax rejects 'positional after named' and is never "
+    "generated that way): the positional arguments are numbered among the positional ones only, i.e. `f $c=9 1` gives 1 to the first parameter; a parameter is never "
+    "given both by position and by name",
     "declared return members are variables of the flow instance that a flow reference can read (docs: 'flow attributes'); the docs give them no role in "
     "`return` ('If no return value is provided None is passed'), so only the value given to `return` is asserted; the initial value of a member (its "
     "declared default) is never asserted: a return expression names a member only after the body assigned it; what `$x = await f` does when f ends "
@@ -102,7 +113,10 @@ def _case(draw):
             "vals": [draw(lit_value.filter(lambda v: not isinstance(v, list))), draw(lit_value)],
             "order": draw(st.lists(st.integers(0, 1), min_size=2, max_size=6)),
         }
-    n = draw(st.integers(0, 4))
+    # 3 of 4 signatures have 0-4 parameters, 1 of 4 is WIDE: 5-14 parameters ('for all signatures'; positional argument i is
+    # handed over as `$i`, so that more than ten positional arguments reach the two-digit identifiers `$10`, `$11`, ...)
+    wide = draw(st.integers(0, 3)) == 0
+    n = draw(st.sampled_from([5, 6, 7, 8, 9, 10, 11, 11, 12, 12, 13, 14])) if wide else draw(st.integers(0, 4))
     ndef = draw(st.integers(0, n))
     # which parameters declare a default: a suffix of the signature, or ANY subset (the grammar accepts `flow f $a=10 $b`:
     # a parameter with a default before one without; positional argument i still binds to the i-th DECLARED parameter)
@@ -127,17 +141,22 @@ def _case(draw):
             m["set"] = draw(member_value)
         members.append(m)
     set_members = [m["name"] for m in members if "set" in m]
-    k = draw(st.integers(0, n))
+    # number of positional arguments; for a wide signature in 2 of 3 cases all but 0-3 parameters are given by position
+    k = draw(st.integers(max(0, n - 3), n)) if wide and draw(st.integers(0, 2)) else draw(st.integers(0, n))
     via_event = draw(st.booleans())
     syntax = draw(st.sampled_from(["simple", "classic"]))
     form = draw(st.sampled_from(["assign", "await", "startref", "activate"]))
     argval = value if via_event else lit_value
+    if wide:
+        # many arguments: mostly scalars (keeps the case small), now and then a container
+        argval = st.one_of(scalar if via_event else lit_scalar, scalar if via_event else lit_scalar, argval)
     # `f 0 [1]` is read as the subscript expression `0[1]`: a list literal is never a positional argument in simple syntax
     posval = argval if via_event or syntax == "classic" else lit_value.filter(lambda v: not isinstance(v, list))
     pos = [draw(posval) for _ in range(k)]
     rest = [p["name"] for p in sig[k:]]
     named_names = draw(st.lists(st.sampled_from(rest), unique=True, max_size=len(rest))) if rest else []
     named = {nm: draw(argval) for nm in named_names}
+    slots = _slots(draw, syntax, k, len(named))
     assigns = []
     for _ in range(draw(st.integers(0, 2))):
         target = draw(st.sampled_from([p["name"] for p in sig] + ["loc"] + set_members))
@@ -183,6 +202,8 @@ def _case(draw):
         # leaks into another instance compounds
         "wrap": draw(st.lists(st.sampled_from([p["name"] for p in sig]), unique=True, max_size=2)) if sig else [],
     }
+    if slots is not None:
+        case["slots"] = slots
     if form == "activate":
         # an ACTIVATED flow: started by `activate f ...`, waits for Tick(), runs the rest of its body and is restarted when it
         # ends; `ticks` = number of restarts observed; `second` = another activation of the same flow with another argument subset
@@ -190,8 +211,18 @@ def _case(draw):
         case["ticks"] = draw(st.integers(0, 3))
         case["act_from"] = draw(st.sampled_from(["main", "helpers"]))
         case["mutate_defaults"] = ACTIVATE_MUTATES_DEFAULTS and draw(st.booleans())
-        case["second"] = draw(st.none() | _second(sig, k, named, _bind(sig, pos, named), argval, posval, via_event or syntax == "classic"))
+        case["second"] = draw(st.none() | _second(sig, k, named, _bind(sig, pos, named), argval, posval, via_event or syntax == "classic", syntax))
     return case
+
+
+def _slots(draw, syntax, k, m):
+    """WRITTEN order of the arguments of a bracket-less call: for every named argument the number of positional arguments written
+    before it (0..k). The grammar (`simple_arguments: simple_argvalue+`) puts no order on positional and named arguments, so
+    `f $c=9 1` is a call with one positional and one named argument; the i-th POSITIONAL argument belongs to the i-th parameter.
+    None = the usual order (all positional arguments first); the classic syntax rejects a positional argument after a named one."""
+    if syntax != "simple" or not k or not m or draw(st.integers(0, 2)) == 0:
+        return None
+    return [draw(st.integers(0, k)) for _ in range(m)]
 
 
 def _split(draw, sig, prov, list_pos_ok):
@@ -206,7 +237,16 @@ def _split(draw, sig, prov, list_pos_ok):
 
 
 @st.composite
-def _second(draw, sig, k1, named1, env1, argval, posval, list_pos_ok):
+def _second(draw, sig, k1, named1, env1, argval, posval, list_pos_ok, syntax="classic"):
+    sec = draw(_second_args(sig, k1, named1, env1, argval, posval, list_pos_ok))
+    slots = _slots(draw, syntax, len(sec["pos"]), len(sec["named"]))
+    if slots is not None:
+        sec["slots"] = slots
+    return sec
+
+
+@st.composite
+def _second_args(draw, sig, k1, named1, env1, argval, posval, list_pos_ok):
     """A second activation of the same flow, built relative to the first one.
     omits-some : provides a proper subset of the first one's arguments, same values (positional or by name)
     adds-some  : provides all of the first one's arguments (same values) + some of the parameters the first one omitted
@@ -328,10 +368,56 @@ def _return_family():
                 yield _plain_call(sig, [1] if sig else [], {}, i, members=members, ret=ret)
 
 
+def _order_family():
+    """Written order of the arguments of a bracket-less call: signatures of 2-4 parameters (defaults on none but the last / on all)
+    x every provision with >=1 positional and >=1 named argument x every placement of the named arguments among the positional
+    ones that writes at least one named argument BEFORE a positional one; call forms in turn."""
+    vals = {"p0": 7, "p1": "one", "p2": False, "p3": {"k": 4}}
+    forms = ["assign", "startref", "await", "activate"]
+    i = 0
+    for n in (2, 3, 4):
+        names = [f"p{j}" for j in range(n)]
+        for all_defaults in (False, True):
+            sig = [{"name": nm, **({"default": "d" + nm} if all_defaults or j == n - 1 else {})} for j, nm in enumerate(names)]
+            for k, named in _provisions(names):
+                if not k or not named:
+                    continue
+                for code in range((k + 1) ** len(named)):
+                    slots = [code // (k + 1) ** j % (k + 1) for j in range(len(named))]
+                    if min(slots) == k:
+                        continue  # the usual order: family (a)
+                    i += 1
+                    form = forms[i % 4]
+                    extra = {"ticks": 1, "act_from": "main", "mutate_defaults": False, "second": None} if form == "activate" else {}
+                    yield _plain_call(sig, [vals[nm] for nm in names[:k]], {nm: vals[nm] for nm in named}, i, syntax="simple", form=form, slots=slots, **extra)
+
+
+def _wide_family():
+    """Wide signatures: 5-14 parameters (every third one declares a default) x every number k of positional arguments; of the
+    remaining parameters every second one is given by name; all values distinct, so that a swapped binding shows."""
+
+    def val(j, syntax):
+        # (a list literal is never a positional argument of a bracket-less call)
+        return [100 + j, f"s{j}", {"k": j}, j + 0.5, [j] if syntax == "classic" else f"t{j}"][j % 5]
+
+    i = 0
+    for n in (5, 8, 10, 11, 12, 13, 14):
+        names = [f"p{j}" for j in range(n)]
+        sig = [{"name": nm, **({"default": f"d{j}"} if j % 3 == 2 else {})} for j, nm in enumerate(names)]
+        for k in range(n + 1):
+            i += 1
+            syntax = "classic" if i % 2 else "simple"
+            form = ["assign", "startref", "await", "activate"][i // 2 % 4]
+            extra = {"ticks": 1, "act_from": "main", "mutate_defaults": False, "second": None} if form == "activate" else {}
+            yield _plain_call(sig, [val(j, syntax) for j in range(k)], {names[j]: val(j, syntax) for j in range(k, n) if (j - k) % 2 == 0}, i, syntax=syntax, form=form, **extra)
+
+
 def enumerate_cases(tier):
     yield from _activation_family()
     yield from _signature_family()
     yield from _return_family()
+    yield from _order_family()
+    yield from _wide_family()
 
 
 def _activation_family():
@@ -453,6 +539,11 @@ def _members_at_end(case):
     return held
 
 
+def _named_before_positional(call):
+    """A bracket-less call that writes a named argument in front of a positional one."""
+    return any(at < len(call["pos"]) for at in call.get("slots") or ())
+
+
 def _default_before_nondefault(sig):
     """Index of the first parameter WITHOUT a default that follows one WITH a default (None: defaults form a suffix)."""
     seen = False
@@ -517,15 +608,21 @@ def _program(case):
             return f"$e.{key}"
         return lit(v)
 
-    def render(pos_vals, named_vals, kp, kn):
+    def render(pos_vals, named_vals, kp, kn, slots):
         pos = [arg(v, f"{kp}{i}") for i, v in enumerate(pos_vals)]
         named = [(nm, arg(v, f"{kn}_{nm}")) for nm, v in named_vals.items()]
         if case["syntax"] == "simple":
-            return " ".join([name] + pos + [f"${nm}={a}" for nm, a in named])
+            # written order: named argument j stands after `slots[j]` positional arguments (default: after all of them)
+            slots = slots if slots is not None else [len(pos)] * len(named)
+            words = [name]
+            for i in range(len(pos) + 1):
+                words += [f"${nm}={a}" for (nm, a), at in zip(named, slots) if at == i]
+                words += pos[i : i + 1]
+            return " ".join(words)
         return f"{name}(" + ", ".join(pos + [f"{nm}={a}" for nm, a in named]) + ")"
 
-    call = render(case["pos"], case["named"], "v", "n")
-    call2 = render(second["pos"], second["named"], "w", "m") if second else None
+    call = render(case["pos"], case["named"], "v", "n", case.get("slots"))
+    call2 = render(second["pos"], second["named"], "w", "m", second.get("slots")) if second else None
     helpers = activate and case.get("act_from") == "helpers"
     if helpers:
         # the activations are issued by two other flows (the activated flow is their child, not main's)
@@ -702,9 +799,17 @@ def prop(case):
     mix = sum([k > 0, bool(case["named"]), used_default])
     vals = list(case["pos"]) + list(case["named"].values())
     nt = mix >= 2 or any(isinstance(x, (list, dict, bool)) or x is None for x in vals)
-    labels = [case["syntax"], case["form"], "via-event" if case["via_event"] else "literal", f"params{n}", f"mix{mix}", "ret-" + case["ret"]["kind"]]
+    labels = [case["syntax"], case["form"], "via-event" if case["via_event"] else "literal", f"params{n}" if n <= 4 else "params5-9" if n <= 9 else "params10-14", f"mix{mix}", "ret-" + case["ret"]["kind"]]
     if used_default:
         labels.append("default-used")
+    k_max = max(k, len(second["pos"]) if second else 0)
+    if k_max > 4:
+        # positional argument i is handed over as `$i`: from the eleventh on the identifier has two digits
+        labels.append("positional11+" if k_max > 10 else "positional5-10")
+        nt = True
+    if _named_before_positional(case) or (second and _named_before_positional(second)):
+        labels.append("named-written-before-positional")
+        nt = True
     if _default_before_nondefault(case["sig"]) is not None:
         labels.append("default-before-nondefault")
         if k:
